@@ -217,6 +217,34 @@ func OpenFile(name string, flag int, perm FileMode) (*File, error) {
 		w.logOp(kind, path, 0, 0, "dir")
 		return f, nil
 	}
+	if src, ok := w.fifoSource(path); ok {
+		ino, exists := w.Files[src]
+		switch {
+		case !exists:
+			e := syscall.ENOENT
+			if flag&O_CREATE != 0 {
+				e = syscall.EACCES
+			}
+			w.logOp(kind, path, 0, 0, e.Error())
+			return nil, perr("open", name, e)
+		case flag&O_CREATE != 0 && flag&O_EXCL != 0:
+			w.logOp(kind, path, 0, 0, "eexist")
+			return nil, perr("open", name, syscall.EEXIST)
+		case flag&(O_WRONLY|O_RDWR) != 0:
+			// nobody reads the other end
+			w.logOp(kind, path, 0, 0, "eacces")
+			return nil, perr("open", name, syscall.EACCES)
+		}
+		pos := w.P.fifoPos[path]
+		if pos == nil {
+			pos = new(int)
+			w.P.fifoPos[path] = pos
+		}
+		f := &File{w: w, name: name, kind: kPipeIn, pdata: append([]byte(nil), ino.Data...), chunks: w.P.fifoChunks, rpos: *pos, fpos: pos}
+		w.install(f)
+		w.logOp(kind, path, 0, 0, fmt.Sprintf("fd%d fifo", f.fd))
+		return f, nil
+	}
 	// every directory component must exist and be a directory
 	if e := w.checkParents(path); e != 0 {
 		w.logOp(kind, path, 0, 0, e.Error())
@@ -451,9 +479,15 @@ func Stat(name string) (FileInfo, error) {
 		w.logOp("stat", path, 0, 0, "file")
 		return &fileInfo{base(path), int64(len(ino.Data)), 0644}, nil
 	}
-	if w.Dirs[path] {
+	if w.Dirs[path] || (w.FifoRoot != "" && path == w.FifoRoot) {
 		w.logOp("stat", path, 0, 0, "dir")
 		return &fileInfo{base(path), 4096, fs.ModeDir | 0755}, nil
+	}
+	if src, ok := w.fifoSource(path); ok {
+		if _, exists := w.Files[src]; exists {
+			w.logOp("stat", path, 0, 0, "fifo")
+			return &fileInfo{base(path), 0, fs.ModeNamedPipe | 0600}, nil
+		}
 	}
 	e := w.missing(path)
 	w.logOp("stat", path, 0, 0, e.Error())
@@ -576,4 +610,13 @@ func SameFile(a, b FileInfo) bool            { return a.Name() == b.Name() && a.
 func IsTTY(fd uintptr) bool {
 	f, ok := W.P.fds[int(fd)]
 	return ok && f.kind == kTty
+}
+
+// fifoSource maps a path below the directory of named pipes to the file whose
+// content the pipe delivers.
+func (w *World) fifoSource(path string) (string, bool) {
+	if w.FifoRoot == "" || !under(path, w.FifoRoot) || path == w.FifoRoot {
+		return "", false
+	}
+	return w.FifoSrc + path[len(w.FifoRoot):], true
 }
